@@ -161,7 +161,8 @@ def run(repo: Repo, rep: Report, tier: str) -> None:
     scoped = sorted(a for a in state if a in mutated and a not in ACCUMULATORS and a != "param_values")
     cfg = CFG(lf.node)
     clf = canon(lf)
-    outer = [s for s in cfg.stmts() if isinstance(s, ast.For) and isinstance(clf.node(s.iter), ast.Call) and call_name(clf.node(s.iter)) == "get_iteration_values"]
+    # the loop over the iteration values; whether its iterable is *exactly* the sequence function's answer is C16-R2's question, here the loop only has to be found
+    outer = [s for s in cfg.stmts() if isinstance(s, ast.For) and any("get_iteration_values(" in a for a in clf.alts(s.iter, s))]
     inner = [s for s in cfg.stmts() if isinstance(s, ast.For) and norm(s.iter).endswith(".body")]
     if not outer or not inner:
         raise AnalysisError("C16-R3: unrolling loops not found in lower_for_stmt")
@@ -362,6 +363,30 @@ def run(repo: Repo, rep: Report, tier: str) -> None:
             ok12 = val is not None and isinstance(val, ast.Name) and val.id == lp12.target.id
             rep.check(ok12, "C16-R12", "visit_ForStmt: the iterator symbol carries the iteration's value", f"IntValue(value={lp12.target.id})" if ok12 else
                       f"`{norm(vt)}`: the analyzer knows the iterator as an int without a value; bounds of nested loops that mention it cannot be resolved", vf12.loc(c12))
+
+    # ---------------- R13 --------------------------------------------------------------
+    rep.rule("C16-R13", "a number used while lowering comes from the lowering's own tables, never from the analyzer's type cache: the analyzer caches the type of an expression "
+             "by syntax node, a loop body (and a function body) is one syntax tree for all its expansions, so a cached `IntValue.value` is the value of one iteration — "
+             "wherever a lowering function asks `get_expr_type(<node>)`, the `.value` of the answer is not read (the type's *kind* and signal may be)")
+    n13 = 0
+    for f13 in repo.all_funcs():
+        if ".lowering." not in f13.module.name + ".":
+            continue
+        c13 = None
+        for n_ in walk_local(f13.node):
+            if not (isinstance(n_, ast.Attribute) and n_.attr == "value" and isinstance(n_.ctx, ast.Load)):
+                continue
+            c13 = c13 or canon(f13)
+            base_alts = c13.alts(n_.value, None) if isinstance(n_.value, ast.Name) else [c13.text(n_.value)]
+            hits = [a for a in base_alts if re.search(r"\.get_expr_type\(", a) and not a.rstrip(")").endswith(".value")]
+            # `get_expr_type(x.value)` asks for the type of a sub-node: that is a question, not a read of a cached number
+            hits = [a for a in hits if re.match(r"^(self\.(parent\.)?semantic|self\.semantic)\.get_expr_type\(", a) or ".semantic.get_expr_type(" in a]
+            if hits:
+                n13 += 1
+                rep.bad("C16-R13", f"{f13.short}: reads `.value` of a type the analyzer cached for a syntax node", f"`{hits[0][:90]}.value`: inside a loop or function body this is the "
+                        "number of whichever expansion the analyzer saw first, not of the one being lowered", f13.loc(n_))
+    if n13 == 0:
+        rep.ok("C16-R13", "no lowering function reads a number out of the analyzer's type cache", "get_expr_type answers are used for kind and signal only", "")
 
     # ---------------- R5 ---------------------------------------------------------------
     rep.rule("C16-R5", "the transformer takes start and stop from the first and second bound, the step from the bound after STEP_KW "
